@@ -69,6 +69,7 @@ pub fn write_file(rel: &str, content: &[u8]) {
         }
     }
     fs::write(p, content).expect("write file");
+    vh::util::vary_mtime(p);
 }
 
 /// Materialise a listing (observable form: gzip-tagged entries are re-compressed) below `root`.
@@ -79,6 +80,7 @@ pub fn materialise(root: &Path, l: &[(String, Vec<u8>)]) {
             fs::create_dir_all(parent).expect("mkdir");
         }
         fs::write(&full, c).expect("write");
+        vh::util::vary_mtime(&full);
     }
 }
 
